@@ -102,6 +102,10 @@ def run(ck):
         ck.count(f'{rule} ops', schednorm.count_ops(trees[1]))
     r4_limits(ck, w)
     r5_mustcalls(ck, w)
+    from ..engines import fsbind
+    ck.rule('C20.R6', 'Fiat–Shamir statement binding: in ipa_prove / ipa_verify and the in-circuit parse_trace every statement input (bases, claimed values, key, '
+                      'instances) is absorbed before the first challenge is squeezed from the same transcript')
+    fsbind.check(ck, w, 'C20.R6', [IPA + 'ipa_prove', IPA + 'ipa_verify', VG + 'parse_trace'], 10)
     # constraint-flow lints over the verifier gadget and aggregator files (shared engine of C04–C07)
     from . import dprops
     dprops.run_d(ck, w, 'C20', dict(advice=0, gadget_fns=40, d4=0, mustcall=8))
